@@ -188,6 +188,39 @@ def case_cr(pd, theta, phi, t_cr, pcr, T1c, T2c, T1t, T2t):
     return bad
 
 
+def scaled_gate_set_cases(rng, pds, reps):
+    """ScaledNoiseGates(s) is the gate set at the parameters (p*s, T1/s, T2/s): for every gate, the sample after a seed equals
+    the sample of Gates on the same pulse at the scaled parameters after the same seed.  Returns list of failures."""
+    from quantum_gates._gates.gates import Gates, ScaledNoiseGates
+    from qgv import tv_factories as tv
+    out = []
+    for pd in pds:
+        pulse = gc.build_pulse(pd)
+        for _ in range(reps):
+            sc = rng.choice([0.37, 2.5, 1.0, 1e-3])
+            base, scaled = Gates(pulse), ScaledNoiseGates(noise_scaling=sc, pulse=pulse)
+            for gate, names in gc.GATE_ARGS.items():
+                args = tv.random_args(gate, names, rng)
+                sargs = [(v * sc if (n.startswith("p") and not n.startswith("phi")) or n == "rout" else
+                          (v / sc if n.startswith("T1") or n.startswith("T2") else v)) for n, v in zip(names, args)]
+                seed = rng.randrange(2 ** 31)
+                try:
+                    np.random.seed(seed)
+                    with np.errstate(all="ignore"):
+                        A = np.array(getattr(scaled, gate)(*args), dtype=complex)
+                    np.random.seed(seed)
+                    with np.errstate(all="ignore"):
+                        B = np.array(getattr(base, gate)(*sargs), dtype=complex)
+                except Exception as e:          # noqa
+                    out.append((gate, pd, [sc] + list(args), [f"ScaledNoiseGates({sc}).{gate} raised {type(e).__name__}: {e}"]))
+                    continue
+                if np.isfinite(B).all() and not (np.isfinite(A).all() and np.abs(A - B).max() <= 1e-12):
+                    out.append((gate, pd, [sc] + list(args),
+                                [f"ScaledNoiseGates({sc}).{gate}{tuple(round(a, 12) for a in args)} differs from Gates.{gate} at the scaled parameters "
+                                 f"(p*s, T1/s, T2/s) after the same seed by {np.abs(A - B).max():.3e}"]))
+    return out
+
+
 def channel_mc(rng, n):
     """shot average of G rho G^dag for the idle relaxation gate vs the T1/T2 channel (Monte Carlo: a test, not a proof)"""
     import quantum_gates._gates.factories as F
@@ -289,6 +322,9 @@ def main(ctx):
             if bad:
                 first = list(base)
                 fails.append(("cr-sweep", pd, [first, args], [b + " (same angle requested before at another duration on the same factory object)" for b in bad]))
+    for gate, pd, args, bad in scaled_gate_set_cases(rng, pds if ctx.thorough else pds[:2], 2 if ctx.thorough else 1):
+        fails.append(("scaled:" + gate, pd, args, bad))
+    ctx.count(len(gc.GATE_ARGS) * (len(pds) * 2 if ctx.thorough else 2))
     bb = boundary_probe(rng, 200 if ctx.thorough else 60)
     ctx.count(200 if ctx.thorough else 60)
     for g, T1, T1b in bb[:1]:
@@ -349,6 +385,8 @@ def replay(ctx, path):
         return 0 if np.isfinite(G).all() else 1
     if rp["gate"] == "channel":
         print("Monte-Carlo channel test: re-run the check"); return 1
+    if rp["gate"].startswith("scaled:"):
+        print("scaled gate set case: re-run ./check C04 with the seed of the evidence file;", rp["failure"][:300]); return 1
     if rp["gate"] == "cr-sweep":                       # the earlier request on the same factory object first
         case_cr(rp["pulse"], *rp["args"][0])
         bad = case_cr(rp["pulse"], *rp["args"][1])
